@@ -379,9 +379,17 @@ def mkWrapper (gates : List Kind) (r : Reg) : Option Op :=
   if r.ty = .c then none
   else if gates.all Kind.isOneQubitBase then some ⟨.wrapper, [r], [], ["one-qubit"], gates⟩ else none
 
-/-- body of the loop, first half: `if node in self.node_dict.get("one-qubit", []): … gate_list += …; self.remove_op(node)` -/
+/-- `groupable(nd)` of `group_one_qubit_gates`: the node carries the label "one-qubit" *and* its operation is a genuine
+    `OneQubitOperationBase` (a `MeasurementZ` also carries the label; it is a boundary, not a groupable gate) -/
+def groupable (c : Dag) (nd : NodeId) : Bool :=
+  (dictGet c.nodeDict "one-qubit").contains nd &&
+    (match c.opOf? nd with
+     | some op => op.kind.isOneQubitBase
+     | none => false)
+
+/-- body of the loop, first half: `if groupable(node): … gate_list += …; self.remove_op(node)` -/
 def groupTake (c : Dag) (node : NodeId) (gates : List Kind) : Dag × List Kind × Option DErr :=
-  if (dictGet c.nodeDict "one-qubit").contains node then
+  if c.groupable node then
     match c.opOf? node with
     | none => (c, gates, some .key)
     | some op =>
@@ -410,7 +418,7 @@ def groupWalk (r : Reg) : Nat → Dag → NodeId → List Kind → Res
       match groupTake c node gates with
       | (c1, _, some err) => (c1, some err)
       | (c1, gates1, none) =>
-        if !((dictGet c1.nodeDict "one-qubit").contains next) && !gates1.isEmpty then
+        if !(c1.groupable next) && !gates1.isEmpty then
           match groupFlush c1 r next gates1 with
           | (c2, some err) => (c2, some err)
           | (c2, none) => groupWalk r fuel c2 next []
@@ -435,10 +443,8 @@ def groupLoop (c : Dag) : List NodeId → Res
         | (c1, some err) => (c1, some err)
         | (c1, none) => groupLoop c1 os
 
-/-- `group_one_qubit_gates` (the `Output` list is not modified by the loop body; `self.node_dict["Output"]` is a
-    `KeyError` on a circuit that never had a register — known finding `group:no-registers:KeyError`) -/
-def groupOneQubitGates (c : Dag) : Res :=
-  if dictHas c.nodeDict "Output" then c.groupLoop (dictGet c.nodeDict "Output") else (c, some .key)
+/-- `group_one_qubit_gates` (`for node in self.node_dict.get("Output", [])`; the list is not modified by the loop body) -/
+def groupOneQubitGates (c : Dag) : Res := c.groupLoop (dictGet c.nodeDict "Output")
 
 /-! ## queries -/
 
